@@ -29,8 +29,9 @@ theorem gen_pins (c : Cfg) (m : Msg) (nts : Str) :
     ssdpAll = Gen.C13Server.stAll ∧ rootDevice = Gen.C13Server.stRootDevice
     ∧ ssdpDiscover = Gen.C13Server.discover ∧ okLine = Gen.C13Server.statusLine
     ∧ (responseHeaders c m).map (·.1) = Gen.C13Server.responseKeys
-    ∧ (notifyHeaders c nts m).map (·.1) = Gen.C13Server.notifyKeys := by
-  refine ⟨by decide, by decide, by decide, by decide, rfl, rfl⟩
+    ∧ (notifyHeaders c nts m).map (·.1) = Gen.C13Server.notifyKeys
+    ∧ maxAgeOf Gen.C13Server.cacheControl = 1800000 := by
+  refine ⟨by decide, by decide, by decide, by decide, rfl, rfl, by decide⟩
 
 /-- the source's `_on_data` has the shape the timing theorems need: the delayed send is chosen by
     `delay > 0`, the immediate send is its `else`, `0 ≤ lo`, `0 ≤ off`, `lo + off < 1000`, and the
@@ -84,7 +85,50 @@ theorem answers_eq_advertisements (t : DevTree) (st : Str) (h : lower st = ssdpA
   refine List.Perm.append ?_ (List.Perm.refl _)
   exact perm_map_map_flatMap respUdn (respDevType none) (allDevices t)
 
-/-- **every USN begins with the UDN of the device it describes** (table entries; by
+/-- **every USN begins with the UDN of the device it describes** — for EVERY tree (no domain
+    hypothesis), every target and either option setting: each entry of the table (and hence, by
+    `target_dispatch` / `answers_eq_advertisements` / `advertisements_eq`, each emitted message) has
+    USN = UDN or UDN `::` type, of the device it describes (owning device for a service) -/
+theorem usn_prefix_all (t : DevTree) (ar : Bool) (st : Str) :
+    (∀ e ∈ expAll t, startsWith e.usn e.dev = true) ∧
+    (∀ e ∈ (expected t ar st).1, startsWith e.usn e.dev = true) ∧
+    (∀ m ∈ advertisements t, ∃ e ∈ expAll t, m = toMsg e ∧ startsWith m.usn e.dev = true) := by
+  have hall : ∀ e ∈ expAll t, startsWith e.usn e.dev = true := by
+    intro e he
+    simp only [expAll, List.mem_cons, List.mem_append, List.mem_flatMap, List.mem_map,
+      List.not_mem_nil, or_false] at he
+    rcases he with rfl | ⟨d, _, rfl | rfl⟩ | ⟨s, _, rfl⟩
+    · simp only [expRoot, List.append_assoc]; exact startsWith_append _ _
+    · exact startsWith_self _
+    · simp only [expDevType, List.append_assoc]; exact startsWith_append _ _
+    · simp only [expSvc, List.append_assoc]; exact startsWith_append _ _
+  refine ⟨hall, ?_, ?_⟩
+  · intro e he
+    simp only [expected, List.mem_append] at he
+    rcases he with he | he
+    · unfold expectedBase at he
+      simp only at he
+      split at he
+      · exact hall e he
+      · split at he
+        · simp only [List.mem_singleton] at he; subst he
+          simp only [expRoot, List.append_assoc]; exact startsWith_append _ _
+        · simp only [List.mem_append, List.mem_map, List.mem_filter] at he
+          rcases he with (⟨d, _, rfl⟩ | ⟨d, _, rfl⟩) | ⟨s, _, rfl⟩
+          · exact startsWith_self _
+          · simp only [expDevType, List.append_assoc]; exact startsWith_append _ _
+          · simp only [expSvc, List.append_assoc]; exact startsWith_append _ _
+    · cases ar with
+      | false => simp at he
+      | true =>
+        simp only [if_true, List.mem_singleton] at he; subst he
+        simp only [expRoot, List.append_assoc]; exact startsWith_append _ _
+  · intro m hm
+    rw [advertisements_eq] at hm
+    obtain ⟨e, he, rfl⟩ := List.mem_map.mp hm
+    exact ⟨e, he, rfl, hall e he⟩
+
+/-- … and, on well-formed trees, the library's `udn_from_usn` recovers exactly that UDN (table entries; by
     `target_dispatch` / `answers_eq_advertisements` these are the USNs of every emitted message),
     and the library's `udn_from_usn` recovers exactly that UDN -/
 theorem usn_begins_with_udn {t : DevTree} (hw : wfTree t = true) (ar : Bool) (st : Str) :
@@ -115,6 +159,13 @@ theorem target_dispatch {t : DevTree} (hw : wfTree t = true) (ar : Bool) (st : S
     ((buildResponses t ar st).map (msgKey (expected t ar st).2)).Perm
       ((expected t ar st).1.map (expKey (expected t ar st).2)) :=
   dispatch_perm (WF.of_wfTree hw) ar st
+
+/-- **`upnp:rootdevice`** (any letter case) is answered with exactly the root message — for every
+    tree, no hypothesis; with the always-root option the root message comes twice -/
+theorem rootdevice_exact (t : DevTree) (ar : Bool) (st : Str) (h : lower st = rootDevice) :
+    buildResponses t ar st = respRoot t :: (if ar then [respRoot t] else []) := by
+  have h2 : rootDevice ≠ ssdpAll := by decide
+  cases ar <;> simp [buildResponses, h, h2]
 
 /-- … in particular (option off) `upnp:rootdevice` gets exactly the root message, a target for
     which the table is empty (foreign UUID, foreign or too-high type version, malformed) gets
@@ -192,6 +243,57 @@ theorem history_once {k : Consts} (hk : constsOk k = true) (t : DevTree) (evs : 
   refine p1.trans ?_
   simp [Loop.all]
 
+/-- **the event-loop run, judge-free and both ways** (clauses 3–8 and 12 without the judge): run
+    the responder state machine over ANY sequence of receptions and clock advances and let `mxCap`
+    more seconds pass.  Then no timer is left, nothing raised, and the log of sent datagrams is — as
+    a multiset — the disjoint union over the receptions of what each one causes (`outsOf`), where a
+    reception that is not an M-SEARCH causes nothing, and an M-SEARCH received at `τ` from `r` causes
+    exactly the (ST, USN) multiset the table prescribes for its target (ST compared as the target
+    demands), every datagram going to `r` at a time in `[τ, τ + MX]`, each realising a table entry
+    whose USN it carries and begins with the described device's UDN, and which the listener model —
+    for every configuration with a description URL the listener accepts — reports as that device.
+    So every datagram in the log has a reception that accounts for it, and every prescribed answer
+    of every M-SEARCH is in the log exactly once; no requester is exempt. -/
+theorem loop_answers_exact {k : Consts} (hk : constsOk k = true) {t : DevTree} (hw : wfTree t = true)
+    (evs : List Ev) :
+    let s := runLoop k t {} (evs ++ [.advance (k.mxCap * 1000)])
+    s.timers = [] ∧ s.raisedAt = [] ∧
+    s.log.Perm ((recvsFrom 0 evs).flatMap fun x => outsOf k t x.1 x.2.1 x.2.2.1 x.2.2.2) ∧
+    ∀ x ∈ recvsFrom 0 evs,
+      (isMSearch x.2.2.1 = false → outsOf k t x.1 x.2.1 x.2.2.1 x.2.2.2 = []) ∧
+      (isMSearch x.2.2.1 = true →
+        ((outsOf k t x.1 x.2.1 x.2.2.1 x.2.2.2).map fun o =>
+            msgKey (expected t k.alwaysRoot (x.2.2.1.st.getD [])).2 o.msg).Perm
+          ((expected t k.alwaysRoot (x.2.2.1.st.getD [])).1.map
+            (expKey (expected t k.alwaysRoot (x.2.2.1.st.getD [])).2)) ∧
+        ∀ o ∈ outsOf k t x.1 x.2.1 x.2.2.1 x.2.2.2,
+          o.dest = x.2.1 ∧ x.1 ≤ o.time ∧ o.time ≤ x.1 + windowMs x.2.2.1.mx ∧
+          ∃ e ∈ (expected t k.alwaysRoot (x.2.2.1.st.getD [])).1,
+            o.msg.usn = e.usn ∧ startsWith o.msg.usn e.dev = true ∧
+            ∀ cfg : Cfg, validLocation cfg.location = true →
+              hearResponse cfg o.msg = ⟨true, e.dev, o.msg.st, cfg.location, 0⟩) := by
+  intro s
+  have kk := ConstsOk.of_bool hk
+  have w := WF.of_wfTree hw
+  obtain ⟨h1, h2, h3⟩ := history_once hk t evs
+  refine ⟨h1, h2, by rw [← outsFrom_eq]; exact h3, ?_⟩
+  rintro ⟨τ, r, req, sel⟩ _
+  refine ⟨fun hn => by simp [outsOf, answer_not_msearch k t τ req sel hn], fun hm => ?_⟩
+  obtain ⟨sends, hans, hmsgs, htime⟩ := answer_spec kk t τ req sel hm
+  simp only [outsOf, hans, Option.getD_some]
+  constructor
+  · have := dispatch_perm w k.alwaysRoot (req.st.getD [])
+    rw [← hmsgs, List.map_map] at this
+    simpa [List.map_map, Function.comp_def] using this
+  · intro o ho
+    obtain ⟨sd, hsd, rfl⟩ := List.mem_map.mp ho
+    obtain ⟨ht1, ht2⟩ := htime sd hsd
+    have hmem : sd.msg ∈ buildResponses t k.alwaysRoot (req.st.getD []) := by
+      rw [← hmsgs]; exact List.mem_map.mpr ⟨sd, hsd, rfl⟩
+    obtain ⟨e, he, heok, husn, hst, _⟩ := response_entry w k.alwaysRoot (req.st.getD []) hmem
+    exact ⟨rfl, ht1, ht2, e, he, husn, by rw [husn]; exact heok.usn_prefix,
+      fun cfg hl => hearResponse_ok heok cfg husn hst hl⟩
+
 /-! ### the announcer -/
 
 /-- **announce cycle**: the `i`-th `ssdp:alive` goes out `i` intervals after the start and is the
@@ -252,6 +354,17 @@ theorem listener_accepts {t : DevTree} (hw : wfTree t = true) (c : Cfg) (hl : va
     obtain ⟨e, he, rfl⟩ := List.mem_map.mp hm
     have heok := expAll_ok w e he
     exact ⟨e, he, rfl, hearAlive_ok heok c rfl heok.st hl, hearByebye_ok heok c rfl heok.st hl⟩
+
+/-- **listener refuses** — the other half of the dichotomy on the description URL: when the
+    listener's own `is_usable_location` refuses `baseUri ++ deviceUrl` (`localhost`, loopback,
+    IPv4 link-local, a scheme other than http(s), an unparsable host), EVERY message the server can
+    emit (any ST/NT, any USN — no hypothesis on tree or message) is ignored by the listener model:
+    no callback, nothing stored, for search answers, `ssdp:alive` and `ssdp:byebye` alike.  Together
+    with `listener_accepts` clause 12 is decided for every description URL: "accepted as that device
+    at the description URL" holds exactly when the listener accepts that URL at all. -/
+theorem listener_refuses (c : Cfg) (m : Msg) (hv : validLocation c.location = false) :
+    hearResponse c m = Heard.no ∧ hearAlive c m = Heard.no ∧ hearByebye c m = Heard.no :=
+  hear_refused c m hv
 
 /-! ### the wire -/
 
@@ -319,22 +432,99 @@ theorem location_is_root_description (k : Consts) (cfg : Cfg) (target : Str) (t 
     destination; every requester — however many searches it sends, also while answers to it are
     pending — receives as a multiset exactly what its searches prescribe, distributable over their
     MX windows; the announcements are the table round-robin, not ceasing, none after the stop; the byebyes are the table; every USN begins with the described device's UDN;
-    every message is accepted by the listener model as that device at the description URL. -/
+    every message is accepted by the listener model as that device at the description URL — for
+    EVERY configuration: no hypothesis on the description URL (when the listener refuses it by design
+    the listener clause of the judge is void and `listener_refuses` says what happens instead). -/
 theorem c13_ok {k : Consts} (hk : constsOk k = true) {t : DevTree} (hw : wfTree t = true) (cfg : Cfg)
-    (hl : validLocation cfg.location = true) (target : Str) (searches : List SearchIn) (ann : Option AnnIn) :
+    (target : Str) (searches : List SearchIn) (ann : Option AnnIn) :
     ok (runCase k cfg target t searches ann) = true := by
   have kk := ConstsOk.of_bool hk
   have w := WF.of_wfTree hw
   unfold ok
   rw [Bool.and_eq_true, Bool.and_eq_true]
-  exact ⟨⟨okResponses_run kk w cfg hl target searches ann, okAlives_run cfg target kk w hl searches ann⟩,
-    okByebyes_run cfg target w hl searches ann⟩
+  exact ⟨⟨okResponses_run kk w cfg target searches ann, okAlives_run cfg target kk w searches ann⟩,
+    okByebyes_run cfg target w searches ann⟩
+
+/-- **what an accepting verdict means** (judge soundness, declarative form): if `ok c` holds for ANY
+    observation `c` (implementation or model) then
+    * no M-SEARCH made the handler raise;
+    * every datagram on the response socket either went to a requester that also sent something that
+      is not an M-SEARCH (unconstrained), or is a `200 OK` without NTS carrying the description URL
+      that some M-SEARCH `s` accounts for: sent to `s`'s requester at a time in `[s.time, s.time + MX]`,
+      realising an entry `e` of the table prescribed for `s`'s target with the USN beginning with
+      `e.dev`, and — when the listener accepts the description URL — reported by the listener as
+      device `e.dev`, type = the message's ST, at the description URL;
+    * every requester that sent only M-SEARCHes received, as a multiset of (folded ST, USN), exactly
+      the union of what its searches prescribe;
+    * every advertisement and byebye carries the description URL, and the byebyes (if stopped) are a
+      permutation of the table -/
+theorem ok_sound (c : CaseObs) (h : ok c = true) :
+    (∀ s ∈ c.searches, isMSearch s.req = true → s.raised = false) ∧
+    (∀ m ∈ c.responses,
+      (∃ s ∈ c.searches, s.requester = m.dest ∧ isMSearch s.req = false) ∨
+      (m.startLine = okLine ∧ m.nts = [] ∧ m.location = c.location ∧
+       ∃ s ∈ c.searches, isMSearch s.req = true ∧ m.dest = s.requester ∧ s.time ≤ m.time ∧
+         m.time ≤ s.time + windowMs s.req.mx ∧
+         ∃ e ∈ (expOf c s).1, normKey (expOf c s).2 e.st e.usn = normKey (expOf c s).2 m.st m.usn ∧
+           startsWith m.usn e.dev = true ∧
+           (validLocation c.location = true →
+             m.heard.accepted = true ∧ m.heard.udn = e.dev ∧ m.heard.location = c.location ∧ m.heard.dst = m.st))) ∧
+    (∀ s ∈ c.searches, (∀ s' ∈ c.searches, s'.requester = s.requester → isMSearch s'.req = true) →
+      ((c.responses.filter (·.dest == s.requester)).map fun m => keyL m.st m.usn).Perm
+        ((c.searches.filter (·.requester == s.requester)).flatMap (expKeysL c))) ∧
+    (∀ m ∈ c.alives ++ c.byebyes, m.location = c.location) ∧
+    (∀ ts, c.stopTime = some ts → (c.byebyes.map keyOf).Perm ((expAll c.tree).map fun e => (e.st, e.usn))) := by
+  simp only [ok, Bool.and_eq_true] at h
+  obtain ⟨⟨hR, hA⟩, hB⟩ := h
+  simp only [okResponses, Bool.and_eq_true, List.all_eq_true] at hR
+  obtain ⟨⟨hr1, hr2⟩, hr3⟩ := hR
+  refine ⟨?_, ?_, ?_, ?_, ?_⟩
+  · intro s hs hm
+    have := hr1 s hs
+    simpa [hm] using this
+  · intro m hm
+    have := hr2 m hm
+    simp only [Bool.or_eq_true, List.any_eq_true, Bool.and_eq_true, beq_iff_eq, Bool.not_eq_true'] at this
+    rcases this with ⟨s, hs, h1, h2⟩ | ⟨⟨⟨h1, h2⟩, h3⟩, s, hs, hacc⟩
+    · exact Or.inl ⟨s, hs, h1, h2⟩
+    · right
+      simp only [accounts, Bool.and_eq_true, beq_iff_eq, decide_eq_true_eq, List.any_eq_true] at hacc
+      obtain ⟨⟨⟨⟨a1, a2⟩, a3⟩, a4⟩, e, he, ⟨a5, a6⟩, a7⟩ := hacc
+      refine ⟨h1, by simpa using h2, h3, s, hs, a1, a2, a3, a4, e, he, a5, a6, ?_⟩
+      intro hv
+      simp only [heardOk, hv, Bool.not_true, Bool.false_or, Bool.and_eq_true, beq_iff_eq] at a7
+      exact ⟨a7.1.1.1.1, a7.1.1.1.2, a7.1.1.2, a7.1.2⟩
+  · intro s hs hall
+    have := hr3 s hs
+    simp only [Bool.or_eq_true, List.any_eq_true, Bool.and_eq_true, beq_iff_eq, Bool.not_eq_true'] at this
+    rcases this with ⟨s', hs', h1, h2⟩ | hq
+    · have := hall s' hs' h1; rw [this] at h2; exact absurd h2 (by simp)
+    · simp only [okRequester, Bool.and_eq_true] at hq
+      have hp := List.isPerm_iff.mp hq.1
+      simpa [List.map_map, Function.comp_def, List.flatMap_map] using hp
+  · intro m hm
+    simp only [okAlives, okByebyes, Bool.and_eq_true, List.all_eq_true] at hA hB
+    rcases List.mem_append.mp hm with hm | hm
+    · have := hA.1.1.1.2 m hm
+      simp only [okNotify, Bool.and_eq_true, beq_iff_eq] at this
+      exact this.1.2
+    · cases hst : c.stopTime with
+      | none => rw [hst] at hB; simp only [List.isEmpty_iff] at hB; rw [hB] at hm; exact absurd hm (by simp)
+      | some ts =>
+        rw [hst] at hB
+        simp only [Bool.and_eq_true, List.all_eq_true] at hB
+        have := (hB.2 m hm).1
+        simp only [okNotify, Bool.and_eq_true, beq_iff_eq] at this
+        exact this.1.2
+  · intro ts hst
+    simp only [okByebyes, hst, Bool.and_eq_true] at hB
+    exact List.isPerm_iff.mp hB.1
 
 /-- C13 for the constants `server.py` has now -/
 theorem c13_ok_gen {t : DevTree} (hw : wfTree t = true) (cfg : Cfg)
-    (hl : validLocation cfg.location = true) (target : Str) (searches : List SearchIn) (ann : Option AnnIn) :
+    (target : Str) (searches : List SearchIn) (ann : Option AnnIn) :
     ok (runCase genConsts cfg target t searches ann) = true :=
-  c13_ok gen_consts_ok hw cfg hl target searches ann
+  c13_ok gen_consts_ok hw cfg target searches ann
 
 /-! ### non-vacuity -/
 
@@ -379,6 +569,32 @@ example :
          = some ["uuid:emb::urn:schemas-upnp-org:service:C:2", "uuid:leaf::urn:schemas-upnp-org:service:C:2"])
     ∧ (buildResponses exTree true "nothing".toList).map (fun m => String.ofList m.usn) = ["UUID:Root::upnp:rootdevice"] := by
   refine ⟨by decide +kernel, by decide +kernel, by decide +kernel, by decide +kernel, by decide +kernel⟩
+/-- non-vacuity of `loop_answers_exact`: a history with two searches from ONE requester (the second
+    while the first answer is pending), a datagram that is not an M-SEARCH, and clock advances; the
+    log holds 11 + 1 datagrams, none for the NOTIFY -/
+example :
+    (let evs : List Ev :=
+       [.recv "a".toList (exReq "ssdp:all" (some "3")) (some 17), .advance 50,
+        .recv "a".toList (exReq "urn:schemas-upnp-org:device:leaf:1" (some "1")) none,
+        .recv "z".toList { line := notifyLine, man := none, st := some ssdpAll, mx := none } none, .advance 10]
+     let s := runLoop genConsts exTree {} (evs ++ [.advance (genConsts.mxCap * 1000)])
+     (recvsFrom 0 evs).map (fun x => (x.1, isMSearch x.2.2.1)) = [(0, true), (50, true), (50, false)]
+     ∧ s.log.length = 12 ∧ s.timers.length = 0
+     ∧ (s.log.map fun o => (String.ofList o.dest, o.time)).eraseDups = [("a", 117), ("a", 799)]) := by
+  decide +kernel
+
+/-- the judge REJECTS: take the model's own observation of one `upnp:rootdevice` search and (1) drop
+    the answer, (2) send it twice, (3) send it after the MX window, (4) send it to somebody else,
+    (5) give it the embedded device's UDN in the USN — each is refused; the untouched one is accepted -/
+example :
+    (let t1 : DevTree := .node "uuid:r".toList "urn:x:device:R:1".toList [] []
+     let c := runCase genConsts exCfg "t".toList t1 [⟨0, "a".toList, exReq "upnp:rootdevice" (some "1"), some 0⟩] none
+     let upd (f : ObsMsg → ObsMsg) : CaseObs := { c with responses := c.responses.map f }
+     [ok c, ok { c with responses := [] }, ok { c with responses := c.responses ++ c.responses },
+      ok (upd fun m => { m with time := 1001 }), ok (upd fun m => { m with dest := "b".toList }),
+      ok (upd fun m => { m with usn := "uuid:emb::upnp:rootdevice".toList })]
+      = [true, false, false, false, false, false]) := by
+  decide +kernel
 end Example
 
 end Upnp.C13
